@@ -323,6 +323,11 @@ def _add_zid_to_line(zid: str, line: str) -> str:
     words = line.split(" ")
     line_before_zid = _pop_line_before_zid(words)
 
+    # Extra spaces after the note's prefix are NOT part of the note's body, so
+    # they must not end up between the new ZID and the rest of the body.
+    while words and words[0] == "":
+        words.pop(0)
+
     # Remove a YYYY-MM-DD create date if one existed prior to adding a ZID to
     # the note.
     if len(words[0]) == 10:
